@@ -44,8 +44,10 @@ class VariableElimination(Inference):
         dict: Modified working factors.
         """
 
+        # Factors hash and compare by value: tag every factor with its identity so that
+        # value-identical factors (e.g. repeated potentials of a Markov network) stay distinct.
         working_factors = {
-            node: {(factor, None) for factor in self.factors[node]}
+            node: {(factor, id(factor)) for factor in self.factors[node]}
             for node in self.factors
         }
 
@@ -58,7 +60,9 @@ class VariableElimination(Inference):
                     )
                     for var in factor_reduced.scope():
                         working_factors[var].remove((factor, origin))
-                        working_factors[var].add((factor_reduced, evidence_var))
+                        working_factors[var].add(
+                            (factor_reduced, (evidence_var, origin))
+                        )
                 del working_factors[evidence_var]
         return working_factors
 
